@@ -8,7 +8,7 @@ histories of **any** length:
 
 * `step_inv` / `run_inv` — the weak representation invariant, also after caller-made name collisions;
 * `step_rect` / `run_rect` / `rows_have_reported_length` — rectangularity (and the kernel-checked
-  violations `translate_three_frames_not_rect`, `compress_empty_not_rect` of the two excluded cases);
+  violation `translate_three_frames_not_rect` of the excluded case; `compress_empty_unchanged`);
 * `step_names_nodup` / `run_names_nodup` — names stay pairwise distinct unless the caller edits names;
 * `step_refines` / `run_refines` — refinement to the plain-list reference model `Gv.Spec.stepOp`, for
   all 28 operations of the history language;
@@ -121,8 +121,10 @@ theorem step_inv (b : Bag) (h : Inv b) (op : Op) (hw : OpWF b op) : Inv (stepOp 
     · exact h
     · split
       · exact h
-      · rename_i r hr
-        exact inv_compressBag b h r hr
+      · split
+        · exact h
+        · rename_i r hr
+          exact inv_compressBag b h r hr
 
 /-- **Every reachable state satisfies the invariant**: induction over histories of any length, from
 any state satisfying it (in particular from the empty containers). -/
@@ -281,14 +283,12 @@ permutation of the positions; `Translate` is asked for one frame, or for the thr
 alignment whose length is `≡ 2 (mod 3)` (known finding `align-translate-3frames-ragged`: for any other
 length the three frames have different numbers of codons, see `translate_three_frames_not_rect`);
 `Replace` and `Concat` did not return an error (both end with a scan of the row lengths and *report* a
-ragged result); `Compress` is applied to an alignment that has sequences (on one without sequences it sets
-the cached length to 0 instead of leaving it at `-1`, see `compress_empty_not_rect`). -/
+ragged result). -/
 def RectOK (b : Bag) : Op → Prop
   | .permute perm => IsPerm perm b.rows.length
   | .translate ph _ => TranslateRectOK b ph
   | .replace old new => (stepOp b (.replace old new)).2 ≠ "err"
   | .concat rows => (stepOp b (.concat rows)).2 ≠ "err"
-  | .compress => b.rows ≠ []
   | _ => True
 
 def HistRectOK : Bag → List Op → Prop
@@ -391,8 +391,10 @@ theorem step_rect (b : Bag) (h : Rect b) (op : Op) (hw : RectOK b op) : Rect (st
     · exact h
     · split
       · exact h
-      · rename_i r hr
-        exact rect_compressBag hw r hr
+      · split
+        · exact h
+        · rename_i hne _ r hr
+          exact rect_compressBag (by intro he; rw [he] at hne; exact hne rfl) r hr
 
 /-- **Every reachable alignment is rectangular**: induction over histories of any length. -/
 theorem run_rect (ops : List Op) (b : Bag) (h : Rect b) (hw : HistRectOK b ops) : Rect (finalState b ops) := by
@@ -444,19 +446,14 @@ theorem translate_three_frames_not_rect :
 
 
 
-/-- the excluded case of `Compress` is a genuine violation (kernel-checked): compressing an alignment without
-sequences reports success and leaves the cached length at 0 although there is no row (every other
-operation that empties an alignment, and `NewAlign`, report `-1`) — after which a sequence of any positive
-length is rejected -/
-theorem compress_empty_not_rect :
-    Rect (newAlign 1) ∧ (stepOp (newAlign 1) .compress).2 = "ok[_]" ∧
-    ¬ Rect (stepOp (newAlign 1) .compress).1 ∧
-    (stepOp (stepOp (newAlign 1) .compress).1 (.add "a" [65, 67, 71])).2 = "err" := by
-  refine ⟨rect_of_empty_align 1, by decide, ?_, by decide⟩
-  intro h
-  have := h.empty_len (by decide) (by decide)
-  revert this
-  decide
+/-- `Compress` on an alignment without sequences leaves it as it is — cached length `-1`, so a sequence of any
+length can still be added.  (Before the repair 99018fe of /repo it set the cached length to 0: the alignment
+reported success and then rejected every sequence of positive length; the history `compress; add:x:ACG`
+showed it, `fail:ragged-step1`.) -/
+theorem compress_empty_unchanged :
+    stepOp (newAlign 1) .compress = (newAlign 1, "ok[_]") ∧
+    (stepOp (stepOp (newAlign 1) .compress).1 (.add "a" [65, 67, 71])).2 = "ok" := by
+  refine ⟨rfl, by decide⟩
 
 /-! ## names stay pairwise distinct unless the caller renames two rows to the same name -/
 
@@ -650,7 +647,7 @@ example : ∃ s' sts, specRun (abs (newAlign 1)) demoHist2 = some (s', sts) ∧
 
 -- site removal after a compression: within the rectangularity theorem (the alignment has sequences)
 example : HistRectOK (newAlign 1) [.add "a" [65, 45, 45], .compress, .rmGapSites 1 2 true, .revcomp] :=
-  ⟨trivial, (by show _ ≠ _; decide), trivial, trivial, trivial⟩
+  ⟨trivial, trivial, trivial, trivial, trivial⟩
 
 -- adding the same name three times under the default policy: the names stay distinct
 example : NamesNodup (finalState (newAlign 1) [.add "a" [65], .add "a" [67], .add "a" [71], .dedup false]) :=
